@@ -263,7 +263,16 @@ def wmom_direct(arr, w, inputmean, calcerr, sdev):
         else:
             e = 1.0 / math.sqrt(wt)
         s = math.sqrt(_fsum(ww * (x - m) ** 2) / wt)
-        out.append((m, e, s))
+        # conditioning: the deviations x - m inherit the rounding of the mean (a few ulps of max|x|); when one weight
+        # dominates and its datum sits next to the mean, the error and the deviation are sensitive to it.  The tolerance of
+        # the comparison is the change of each quantity under that perturbation of the mean (zero when the mean is supplied)
+        dm = 0.0 if inputmean is not None else 8e-16 * float(np.max(np.abs(x))) * max(1, len(x))
+        tol_e = tol_s = 0.0
+        for mm in (m - dm, m + dm):
+            if calcerr:
+                tol_e = max(tol_e, abs(math.sqrt(_fsum((ww * (x - mm)) ** 2)) / wt - e))
+            tol_s = max(tol_s, abs(math.sqrt(_fsum(ww * (x - mm) ** 2) / wt) - s))
+        out.append((m, e, s, dm, tol_e, tol_s))
     return out
 
 
@@ -276,11 +285,11 @@ def wmom_matches(result, arr, w, inputmean, calcerr, sdev):
     for c in cols:
         if c.size not in (1, len(exp)):
             return False
-    for d, (m, e, s) in enumerate(exp):
+    for d, (m, e, s, dm, tol_e, tol_s) in enumerate(exp):
         got = [c[d] if c.size > 1 else c[0] for c in cols]
-        want = [m, e] + ([s] if sdev else [])
-        for g, x in zip(got, want):
-            if not approx(g, x, 1e-300):
+        want = [(m, dm), (e, tol_e)] + ([(s, tol_s)] if sdev else [])
+        for g, (x, tol) in zip(got, want):
+            if not (approx(g, x, 1e-300) or abs(float(g) - x) <= 2 * tol):
                 return False
     return True
 
@@ -341,7 +350,7 @@ def sigma_clip_statement(arr, weights, niter, nsig, result):
             mm = _fsum(x) / x.size
             ss = (_fsum((x - mm) ** 2) / x.size) ** 0.5
             return mm, ss, ss / x.size ** 0.5
-        (mm, ee, ss), = wmom_direct(x, w[ix], None, True, True)
+        (mm, ee, ss, _dm, _te, _ts), = wmom_direct(x, w[ix], None, True, True)
         return mm, ss, ee
     ix = np.arange(arr.size)
     mm, ss, ee = stats(ix)
@@ -408,7 +417,7 @@ def get_stats_consistent(arr, weights, kw, res):
             ss = (_fsum((x - mm) ** 2) / x.size) ** 0.5
             ee = ss / x.size ** 0.5
         else:
-            (mm, ee, ss), = wmom_direct(x, weights, None, True, True)
+            (mm, ee, ss, _dm, _te, _ts), = wmom_direct(x, weights, None, True, True)
         g = [np.atleast_1d(res[k])[d] for k in ("mean", "std", "err")]
         if not (approx(g[0], mm, 1e-300) and approx(g[1], ss, 1e-12) and approx(g[2], ee, 1e-12)):
             return False
